@@ -23,8 +23,10 @@ PROPS = {
                 quick=dict(batches=48, units=250, wall=75),
                 thorough=dict(batches=480, units=500, wall=1500)),
     "C02": dict(engine="ptable", level="exploration",
-                quick=dict(batches=48, units=250, wall=75),
-                thorough=dict(batches=480, units=500, wall=1500)),
+                quick=dict(batches=40, units=250, wall=75, legs=[
+                    dict(engine="threads", batches=16, units=40)]),
+                thorough=dict(batches=400, units=500, wall=1500, legs=[
+                    dict(engine="threads", batches=160, units=80)])),
     "C04": dict(engine="ptable", level="exploration",
                 quick=dict(batches=40, units=250, wall=75, legs=[
                     dict(engine="threads", batches=16, units=40)]),
